@@ -73,6 +73,13 @@ Theorem comments_dedup_is_union : forall l, NoDup (dedup l) /\ forall x, In x (d
 Proof. intros l. split; [apply dedup_nodup | apply dedup_in]. Qed.
 Print Assumptions comments_dedup_is_union.
 
+(* -- Merge of compatible profiles (same period type and sample types as the first) succeeds:
+   no error, no panic, no unbounded recursion -- *)
+Theorem merge_total : forall p0 rest,
+  compat_all p0 rest = CompatOk -> Forall vals_ok (p0 :: rest) -> exists q, merge (p0 :: rest) = MOk q.
+Proof. exact merge_total_lemma. Qed.
+Print Assumptions merge_total.
+
 (* -- valid: merging profiles that pass CheckValid yields a profile that passes CheckValid
    (ids are exactly 1..n in creation order; every reference resolves) -- *)
 Theorem merge_valid : forall ps q,
@@ -150,9 +157,10 @@ Example merge_example :
 Proof. vm_compute. repeat split. Qed.
 Example hypotheses_satisfiable :
   Forall (fun p => valid_b p = true) [ex_prof 7 9 5 0; ex_prof 2 3 6 40] /\
-  Forall vals_ok [ex_prof 7 9 5 0; ex_prof 2 3 6 40].
+  Forall vals_ok [ex_prof 7 9 5 0; ex_prof 2 3 6 40] /\
+  compat_all (ex_prof 7 9 5 0) [ex_prof 2 3 6 40] = CompatOk.
 Proof.
-  split; repeat constructor.
+  split; [|split]; repeat constructor.
 Qed.
 (* F25: inside the class the documented rule is not what the code computes: periods [0; -5]
    give -5, the maximum is 0 (merge.go:490 treats a zero running value as "unset") *)
